@@ -111,16 +111,31 @@ pub fn normalise(msg: &str) -> String {
     out.trim().to_string()
 }
 
+/// Path of a repository source file relative to the workspace root, wherever the workspace is
+/// checked out (`/repo`, a scratch worktree); files of third-party crates keep their full path.
+fn repo_rel(path: &str) -> String {
+    let p = repo_file(path);
+    if p.contains("/registry/") || p.contains("/rustc/") {
+        return p;
+    }
+    for krate in ["zkir", "zk_stdlib", "circuits", "proofs", "curves", "aggregator"] {
+        if let Some(i) = p.find(&format!("/{krate}/src/")) {
+            return p[i + 1..].to_string();
+        }
+    }
+    p
+}
+
 fn panic_finding(stage: &str, p: &PanicInfo) -> Finding {
-    let file = repo_file(&p.file);
+    let file = repo_rel(&p.file);
     let msg = normalise(&p.message);
     Finding {
         class: format!("panic|{file}|{msg}"),
         kind: "panic".into(),
         file: Some(file.clone()),
         msg,
-        what: format!("{stage} panicked at {}: {}", repo_file(&p.location), p.message.chars().take(160).collect::<String>()),
-        detail: json!({ "stage": stage, "location": repo_file(&p.location), "message": p.message }),
+        what: format!("{stage} panicked at {}: {}", repo_rel(&p.location), p.message.chars().take(160).collect::<String>()),
+        detail: json!({ "stage": stage, "location": repo_rel(&p.location), "message": p.message }),
     }
 }
 
@@ -413,8 +428,16 @@ fn run_case_inner(case: &Case, opts: &Opts) -> (Vec<Finding>, Stats) {
         return (fs, st);
     }
 
-    match &off {
+    // an off-circuit panic is treated like an off-circuit error for the circuit side
+    let off_view: Option<Result<&Vec<(IrValue, IrType)>, String>> = match &off {
+        Some(Ok(p)) => Some(Ok(p)),
+        Some(Err(e)) => Some(Err(format!("{e:?}"))),
+        None if st.off == "panic" => Some(Err("<panic>".to_string())),
+        None => None,
+    };
+    match &off_view {
         Some(Ok(p)) => {
+            let p: &Vec<(IrValue, IrType)> = p;
             let pi = match catch_any(|| ZkirRelation::format_instance(p)) {
                 Err(pn) => {
                     fs.push(panic_finding("format_instance", &pn));
@@ -526,12 +549,15 @@ fn run_case_inner(case: &Case, opts: &Opts) -> (Vec<Finding>, Stats) {
                         }
                         Ok(v) => {
                             let (r_ok, m_ok) = (v.reference == Ok(true), v.mock == Ok(true));
-                            if r_ok && m_ok {
+                            if r_ok && m_ok && e == "<panic>" {
+                                // the off-circuit panic is the finding; no verdict to compare with
+                                st.circuit = "accept";
+                            } else if r_ok && m_ok {
                                 st.circuit = "accept";
                                 fs.push(finding(
                                     "offcircuit-fails-circuit-satisfiable",
-                                    format!("off-circuit evaluation fails ({}) but the circuit is satisfied by the same witness", normalise(&format!("{e:?}"))),
-                                    json!({ "k": k, "off_circuit_error": format!("{e:?}"), "circuit_binds": pi.iter().map(hexf).collect::<Vec<_>>() }),
+                                    format!("off-circuit evaluation fails ({}) but the circuit is satisfied by the same witness", normalise(e)),
+                                    json!({ "k": k, "off_circuit_error": e, "circuit_binds": pi.iter().map(hexf).collect::<Vec<_>>() }),
                                 ));
                             } else {
                                 st.circuit = "reject";
@@ -767,6 +793,10 @@ pub fn signature(f: &Finding, min: &Case) -> String {
             // MidnightCircuit::from_relation / min_k unwrap the synthesis result
             let api = if stage == "public_inputs" { "public_inputs" } else { "min_k" };
             return format!("C18/{api}/panic@{file} synthesis-error-unwrapped");
+        }
+        if file.ends_with("circuits/src/field/native/native_chip.rs") && raw.contains("Option::unwrap()") && pc == " Bytes(0)" {
+            // BinaryInstructions::and(&[]) takes bits.first().unwrap()
+            return format!("C18/is_equal/panic@{file} and-of-empty-byte-array");
         }
         let table = PANIC_SHAPES.iter().find(|(fs, frag, _, _)| file.ends_with(fs) && raw.contains(frag));
         if let Some((_, _, _, Some(forced))) = table {
